@@ -50,6 +50,82 @@ def record_and_validate(c, tier, tag, what):
     return files
 
 
+async def _wire_sessions(conf, seed, napps, nsend):
+    """Real client and server with a passing UDP middlebox that records every datagram of the link: several client sessions
+    (one per local application socket), each with several datagrams and replies."""
+    import asyncio
+    from checks import c02
+    from lib import e2e
+    dep = e2e.Deployment(conf, "c12wire")
+    mbox = None
+    seen = {0: [], 1: []}
+    try:
+        mbox = e2e.Middlebox(dep.server_port, udp=True)
+        dep.link_port = mbox.port
+
+        def hook(ln, d, data):
+            seen[d].append(bytes(data))
+            return [data]
+        mbox.hook = hook
+        await dep.start()
+        s = c02.Scenario(dep, conf, seed, {0: dep.client_port})
+        for a in range(1, napps + 1):
+            s.w.add_app(a, 0)
+        s.w.add_target(1, "127.0.0.1")
+        s.w.add_target(2, "127.0.0.2")
+        for i in range(nsend):
+            for a in range(1, napps + 1):
+                s.send(a, 1 + (a + i) % 2, 40 + 7 * i + a, rep=1, rsize=50 + 3 * i + a)
+            await s.w.drain(0, 2.0)
+        await asyncio.sleep(0.2)
+        s.w.close()
+        return seen
+    finally:
+        dep.stop()
+        if mbox:
+            await mbox.close()
+
+
+def wire_sessions(c, tier):
+    """FreshPerSession on the wire, end to end: what identifies (key, nonce) in a Shadowsocks 2022 datagram is visible without
+    any key - the first 16 bytes (AES: the encrypted block of session id and packet id; one value = one key and one nonce)
+    or the first 24 bytes (XChaCha: the nonce under the pre-shared key).  Over several client sessions served by ONE server
+    process those values are pairwise distinct in each direction: TraceWire's Fresh rule."""
+    import asyncio
+    from lib import e2e
+    m = {x.label: x for x in e2e.udp_matrix()}
+    labels = ["shadowsocks/2022-blake3-aes-128-gcm/udp", "shadowsocks/2022-blake3-chacha20-poly1305/udp"]
+    if tier != "quick":
+        labels += ["shadowsocks/2022-blake3-aes-256-gcm/udp", "shadowsocks/2022-blake3-chacha8-poly1305/udp", "shadowsocks/2022-blake3-aes-128-gcm+eih/udp"]
+    wd = os.path.join(vlib.WORK, "c12")
+    os.makedirs(wd, exist_ok=True)
+    total = 0
+    for k, lab in enumerate(labels):
+        conf = m[lab]
+        seen = asyncio.run(_wire_sessions(conf, vlib.seed() * 100 + k, 3 if tier == "quick" else 6, 3 if tier == "quick" else 8))
+        n = 16 if "aes" in lab else 24
+        ids = {}
+        rows = [{"ev": "Session", "proto": "ss-udp:" + lab, "dir": "wire", "fmt": "datagram", "limit": 0}]
+        for d, what in ((0, "wire-c2s-key-nonce"), (1, "wire-s2c-key-nonce")):
+            if len(seen[d]) < 4:
+                raise vlib.ToolError("the middlebox saw only %d datagrams in direction %d on %s" % (len(seen[d]), d, lab))
+            for dg in seen[d]:
+                rows.append({"ev": "Fresh", "what": what, "id": ids.setdefault((d, dg[:n]), len(ids) + 1)})
+        path = os.path.join(wd, "wire_sessions_%d.ndjson" % k)
+        with open(path, "w") as fh:
+            fh.write("\n".join(json.dumps(r) for r in rows) + "\n")
+        acc, matched, r = validate_trace("TraceWire", "TraceWire.cfg", path, timeout=900)
+        c.tlc_stats(r)
+        total += len(rows) - 1
+        if acc:
+            c.add("traces_validated_against_impl", 1)
+            c.add("trace_events", matched)
+        else:
+            c.violation("on the wire of %s two different datagrams of one direction start with the same %d bytes (datagram %d of the recording): "
+                        "the same key and nonce twice, across the sessions of one server process" % (lab, n, matched), {"trace": path})
+    c.cov["wire_datagrams_checked"] = total
+
+
 def run(tier):
     c = Check("C12", tier, "model_checking")
     c.cov["traces_validated_against_impl"] = 0
@@ -68,6 +144,7 @@ def run(tier):
         raise vlib.ToolError("anti-vacuity: deviation StampAtCreate not detected by the model")
     c.cov["deviations_detected_by_model"] = seen
     files = record_and_validate(c, tier, "c12", "nonce ledger")
+    wire_sessions(c, tier)
     # binding self-test: make one counter repeat -> TLC must reject
     rows = open(files[0]).read().splitlines()
     cand = [i for i, x in enumerate(rows) if '"counted":true' in x.replace(" ", "") and '"nonce":1' in x.replace(" ", "")]
